@@ -18,6 +18,9 @@ fn main() {
     match id.as_str() {
         "C01" => checks::c01::run(&mut rep),
         "C02" => checks::c02::run(&mut rep),
+        "C03" => checks::c03::run(&mut rep),
+        "C04" => checks::c04::run(&mut rep),
+        "C05" => checks::c05::run(&mut rep),
         _ => {
             eprintln!("unknown property id {id}");
             std::process::exit(2);
